@@ -67,6 +67,23 @@ end
 
 abbrev SEnv := String → Option SType
 
+/-- a field name reduced to lower-case letters and digits: `ValidUntil`, `valid_until` ↦ `validuntil` -/
+def normName (s : String) : List Char := (s.toList.filter (· != '_')).map Char.toLower
+
+/-- Go field names that legitimately differ from the name the schema gives to the field (normalised, Go ↦ schema) -/
+def nameAliases : List (List Char × List Char) := [
+  ("seqno".toList, "msgseqno".toList),          -- wallet.MessageV3/V4.Seqno      : msg_seqno
+  ("rawmessages".toList, "messages".toList),    -- wallet.MessageV3/V4.RawMessages: the (mode, ^msg) list
+  ("sign".toList, "signature".toList),          -- wallet.SignedMsgBody.Sign      : signature
+  ("message".toList, "body".toList)]            -- wallet.SignedMsgBody.Message   : the signed body
+
+/-- the Go field at a position carries the name the schema gives to the field at that position -/
+def nameAgrees (goName schemaName : String) : Bool :=
+  let g := normName goName
+  let n := normName schemaName
+  g == n || nameAliases.any fun p => p.1 == g && p.2 == n
+
+
 def SCtors.find : SCtors → String → Option (List Bool × SType)
   | .nil, _ => none
   | .cons _ tg g t rest, name => if g = name then some (tg, t) else rest.find name
@@ -194,6 +211,57 @@ def specFields (senv : SEnv) : Nat → SFields → Val → Option Chunk
     | some a, some b => some (a.app b)
     | _, _ => none
   | _ + 1, _, _ => none
+end
+
+/-! ### struct values given by field name
+
+The harness hands struct values to the spec BY FIELD NAME (`((:@GoField|v)|…)`); `byName` arranges them in the
+schema's field order, looking each schema field up by its name (normalised, alias table above). A Go struct whose
+same-typed fields are exchanged therefore serialises differently from what the schema prescribes for the same named
+values. Values already given positionally are left as they are. -/
+def lookupField (schemaName : String) : Val → Option Val
+  | .cons (.cons (.sym g) (.cons v .nil)) rest =>
+    if g.startsWith "@" && nameAgrees (g.drop 1).toString schemaName then some v else lookupField schemaName rest
+  | _ => none
+
+def isNamedStruct : Val → Bool
+  | .cons (.cons (.sym g) (.cons _ .nil)) _ => g.startsWith "@"
+  | _ => false
+
+mutual
+def byName (senv : SEnv) : Nat → SType → Val → Val
+  | 0, _, v => v
+  | fuel + 1, S, v =>
+    match S with
+    | .maybe t => (match v with
+      | .cons x .nil => .cons (byName senv fuel t x) .nil
+      | _ => v)
+    | .either l r => (match v with
+      | .cons (.sym side) (.cons x .nil) =>
+        .cons (.sym side) (.cons (byName senv fuel (if side = "R" then r else l) x) .nil)
+      | _ => v)
+    | .ref t => byName senv fuel t v
+    | .seq fs => if isNamedStruct v then byNameFields senv fuel fs v else v
+    | .sum cs => (match v with
+      | .cons (.sym name) (.cons x .nil) =>
+        (match cs.find name with
+        | some (_, t) => .cons (.sym name) (.cons (byName senv fuel t x) .nil)
+        | none => v)
+      | _ => v)
+    | .named n => (match senv n with
+      | some t => byName senv fuel t v
+      | none => v)
+    | .goPtr t => (match v with
+      | .cons x .nil => .cons (byName senv fuel t x) .nil
+      | _ => v)
+    | _ => v
+def byNameFields (senv : SEnv) : Nat → SFields → Val → Val
+  | 0, _, v => v
+  | _ + 1, .nil, _ => .nil
+  | fuel + 1, .cons name t rest, v =>
+    .cons (match lookupField name v with
+      | some x => byName senv fuel t x
+      | none => .sym ("missing:" ++ name)) (byNameFields senv fuel rest v)
 end
 
 /-- the cell a top-level value serialises to -/
